@@ -18,7 +18,7 @@ RULE = ("seeded circuits (hierarchy 0-1, several nodes per type, edges) x parame
         "monitor: a second sweep with one row changed must leave all other columns bit-identical; non-trivial = >= 2 rows and "
         ">= 2 parameters; distinct = distinct (spec, grid) hash")
 DECIDING = ['columns_compared', 'rows_in_grids', 'large_grids', 'dataframe_grids_nondefault_index', 'edge_param_keys', 'node_param_keys', 'multi_target_keys', 'permuted_grids',
-            'input_sweeps', 'uncoupled_checks', 'vectorized_sweeps']
+            'input_sweeps', 'uncoupled_checks', 'vectorized_sweeps', 'parallel_edge_keys', 'repeated_input_sweeps']
 ASSUMPTIONS = ['the returned parameter table (index = circuit labels) is the authority for which values belong to which column']
 CASE_TIMEOUT = 300
 
@@ -80,11 +80,20 @@ def run_case(case, ctx):
         r = rnd.random()
         key = f'par{ki}'
         if r < 0.3 and top_edges:
-            e = rnd.choice(top_edges)
-            pairs = [p for p in [(e[0], e[1])]]
-            if sum(1 for x in top_edges if x[0] == e[0] and x[1] == e[1]) > 1:
-                continue
-            param_map[key] = {'vars': ['weight'], 'edges': pairs}
+            gi = rnd.randrange(len(top_edges))
+            later = [i for i, x in enumerate(top_edges) if any(y[0] == x[0] and y[1] == x[1] for y in top_edges[:i])]
+            if later and rnd.random() < 0.7:
+                gi = rnd.choice(later)        # a second / third parallel edge between two variables
+            e = top_edges[gi]
+            par = [i for i, x in enumerate(top_edges) if x[0] == e[0] and x[1] == e[1]]
+            if len(par) > 1 or rnd.random() < 0.3:
+                # (source, target, index) form: addresses one of several parallel edges between the same two variables
+                pairs = [(e[0], e[1], par.index(gi))]
+                if len(par) > 1:
+                    mech['parallel_edge_keys'] = mech.get('parallel_edge_keys', 0) + 1
+            else:
+                pairs = [(e[0], e[1])]
+            param_map[key] = {'vars': ['weight'], 'edges': pairs, 'edge_index': [gi]}
             mech['edge_param_keys'] = mech.get('edge_param_keys', 0) + 1
         elif consts:
             k0 = rnd.choice(consts)
@@ -110,7 +119,7 @@ def run_case(case, ctx):
         if 'nodes' in pm:
             tg = {(n, v) for n in pm['nodes'] for v in pm['vars']}
         else:
-            tg = {('edge',) + tuple(e) for e in pm['edges']}
+            tg = {('edge', gi_) for gi_ in pm['edge_index']}
         if tg & seen:
             param_map.pop(key)
             grid.pop(key)
@@ -125,7 +134,8 @@ def run_case(case, ctx):
     dt, steps = 1e-3, 12
     inputs = None
     inp_arr = None
-    in_keys = [k for k in ref0.param_keys if ref0.kind[k] == 'in']
+    # (input variables of NODE operators only: the reference model also lists the inputs of edge operators, which no path addresses)
+    in_keys = [k for k in ref0.param_keys if ref0.kind[k] == 'in' and not k[0].startswith('__edge')]
     if in_keys and rnd.random() < 0.4:
         ik = rnd.choice(in_keys)
         nrs = np.random.RandomState(case['cseed'] % (2 ** 31))
@@ -161,12 +171,16 @@ def run_case(case, ctx):
             d = d.sort_values(by=list(d.columns)[0], ascending=False)
         return d
 
+    inputs_obj = {k: v.copy() for k, v in inputs.items()} if inputs else None
+
     def sweep(g):
         from pyrates import grid_search
         tmpl, _ = build.build_python(base)
-        return grid_search(circuit_template=tmpl, param_grid=as_grid(g), param_map=copy.deepcopy(param_map), step_size=dt,
+        pm_ = {k_: {a_: b_ for a_, b_ in v_.items() if a_ != 'edge_index'} for k_, v_ in copy.deepcopy(param_map).items()}
+        # (the caller's inputs dictionary is one object that is handed to every sweep of this case)
+        return grid_search(circuit_template=tmpl, param_grid=as_grid(g), param_map=pm_, step_size=dt,
                            simulation_time=steps * dt, outputs=dict(outputs),
-                           inputs={k: v.copy() for k, v in inputs.items()} if inputs else None, permute_grid=permute,
+                           inputs=inputs_obj, permute_grid=permute,
                            solver='euler', vectorize=vec, verbose=False, clear=True, float_precision='float64')
     try:
         try:
@@ -199,10 +213,9 @@ def run_case(case, ctx):
                         for v in pm['vars']:
                             updates.append([f'{n}/{v}', val])
                 else:
-                    for e in pm['edges']:
-                        eupd.append([e[0], e[1], {'weight': val}])
+                    for gi_ in pm['edge_index']:
+                        spec_i['circ']['edges'][gi_][3]['weight'] = val
             spec_i['updates'] = updates
-            spec_i['edge_updates'] = eupd
             ref_i = RefModel(spec_i)
             input_fn = None
             if inputs:
@@ -228,6 +241,14 @@ def run_case(case, ctx):
             raise observe.Mismatch(f"sweep result has {len(cols)} columns, {len(used)} are accounted for by (output, circuit) pairs")
         if vec:
             mech['vectorized_sweeps'] = 1
+        if inputs:
+            # the same call once more (same grid, same inputs dictionary object): identical result
+            df_r, table_r = sweep(grid)
+            if list(df_r.columns) != cols or not np.array_equal(np.asarray(df_r.values), np.asarray(df.values)):
+                bad = [str(c) for c in cols if c not in list(df_r.columns) or not np.array_equal(np.asarray(df_r[c].values), np.asarray(df[c].values))]
+                raise observe.Mismatch(f"a second identical grid_search call (same grid, same inputs dictionary) returned different results "
+                                       f"in columns {bad[:4]}; keys of the inputs dictionary now {list(inputs_obj)}")
+            mech['repeated_input_sweeps'] = 1
         # uncoupledness: change one row, all other circuits' columns must be bit-identical
         if not permute and n_expected >= 2 and rnd.random() < 0.6:
             g2 = copy.deepcopy(grid)
